@@ -2,7 +2,7 @@
    Model/Burst.v, Model/Hub.v (hub_config).  Statements: Spec/C05_History_Spec.v. *)
 From Coq Require Import Sorted.
 From BV Require Import Base.Prelude Model.Block Model.ForkDB Model.Forkable Model.ForkableLookups Model.Burst Model.Hub
-  Spec.Consumer Spec.Universe Check.Fk_Check Check.Burst_Check Spec.C09_Spec Spec.C05_Spec
+  Spec.Consumer Spec.Universe Check.Fk_Check Check.Burst_Check Spec.C09_Spec Spec.C05_Spec Spec.C05_Through_Spec
   Spec.C01_Spec Spec.C01_Moving_Spec Spec.C05_History_Spec Proofs.Hub.C05_History.
 Local Open Scope N_scope.
 
@@ -30,6 +30,12 @@ Print Assumptions c05_history_total.
 Theorem c05_serves_history : C05_serves_history.
 Proof. exact c05_serves_history_proof. Qed.
 Print Assumptions c05_serves_history.
+
+(* final-only consumers: the cursor of an Irreversible event whose block is still on the retained chain is served and
+   the burst's irreversible events are exactly the consumer's final blocks after it *)
+Theorem c05_final_history : C05_final_history.
+Proof. exact c05_final_history_proof. Qed.
+Print Assumptions c05_final_history.
 
 (* ---- non-vacuity: the history 11 <- 12 <- {23, 13 <- 14 <- 15} fed in the order 11, 12, 23, 13, 14, 15, two final
    blocks kept.  23 is delivered, then undone when 14 arrives; 14 finalises 12, 15 finalises 13 (and 23 is stalled).
@@ -148,5 +154,23 @@ Example c05h_nonvacuous_not_served :
       estep ek = SNew /\ bid (eblk ek) = 23 /\ ri (elib ek) = 11 /\ map sid sg = [13; 14; 15] /\
       block_in (ri (elib ek)) sg = false /\ blocks_from_cursor s (ev_cursor ek) = BErr
   | _, _ => False
+  end.
+Proof. vm_compute. repeat split. Qed.
+
+(* the hypotheses of c05_final_history for the Irreversible event of block 12 (event 7 of (a)) at m = 6, and its conclusion
+   computed: the burst announces 13 (New+Irreversible) and delivers 14, 15; the consumer's final blocks are 11, 12 | 13 *)
+Example c05h_nonvacuous_final :
+  match nth_error (hx_upto 1 (length (hx_tr 1))) 7, cons_fold cons0 (hx_upto 1 6),
+        complete_segment (db (hx_s 1 6)) (bref hx_b5) with
+  | Some ek, Some cm, Some (sg, true) =>
+      estep ek = SIrr /\ bid (eblk ek) = 12 /\ Nat.ltb 7 (length (hx_upto 1 6)) = true /\
+      last_sent (hx_s 1 6) = Some hx_b5 /\ block_in (ri (ecblk ek)) sg = true /\
+      map bid (finals_of cm) = [11; 12; 13] /\
+      match blocks_from_cursor (hx_s 1 6) (ev_cursor ek) with
+      | BOk evs => map (fun e => (estep e, bid (eblk e))) evs = [(SNewIrr, 13); (SNew, 14); (SNew, 15)] /\
+                   map bid (map eblk (irr_events evs)) = [13]
+      | _ => False
+      end
+  | _, _, _ => False
   end.
 Proof. vm_compute. repeat split. Qed.
